@@ -451,9 +451,35 @@ class SymArr:
         if isinstance(idx, tuple) and idx and isinstance(idx[0], SymArr) and _is_bool_arr(idx[0]) and \
                 all(isinstance(i, slice) and i == slice(None) for i in idx[1:]):
             return self._compress(idx[0])
+        if isinstance(idx, list) and getattr(idx, "sym", None) is not None:
+            idx = idx.sym            # list filled by one append per iteration of a generic loop
+        if isinstance(idx, SymSeq):
+            e = idx.elem
+            if isinstance(e, SymArr):
+                idx = SymArr((idx.dim,) + e.axes, e.inner, idx.guard)
+            else:
+                arr = _obj(e)
+                idx = SymArr((idx.dim,) + arr.shape, arr, idx.guard)
         if isinstance(idx, SymArr):
             return gather(self, idx)
         items = self._expand_index(idx)
+        # a[..., lo:hi, ...] with concrete non-negative bounds on a symbolic axis: the first rows, materialised
+        ax = 0
+        for pos, it in enumerate(items):
+            if it is None:
+                continue
+            a = self.axes[ax]
+            if isinstance(a, Dim) and isinstance(it, slice) and it != slice(None) and it.step in (None, 1) \
+                    and isinstance(it.stop, int) and it.stop > 0 and (it.start or 0) >= 0:
+                from .symnp import np as snp
+                pre = [slice(None)] * ax
+                rows = [self[tuple(pre + [i])] for i in range(it.start or 0, it.stop)]
+                stacked = snp.stack(rows, axis=ax) if any(isinstance(r, SymArr) for r in rows) else np.stack([_obj(r) for r in rows], axis=ax)
+                rest = list(items)
+                rest[pos] = slice(None)
+                rest = [r for r in rest]
+                return stacked[tuple(rest)] if any(r is None or r != slice(None) for r in rest) else stacked
+            ax += 1
         new_axes = []
         cidx = []          # index applied to inner (concrete axes)
         subst = []         # substitutions for symbolic axes
